@@ -3,6 +3,7 @@ package participle_test
 import (
 	"errors"
 	"fmt"
+	"io"
 	"strings"
 	"testing"
 
@@ -313,6 +314,105 @@ func TestVerif_C19C08_UnionMemberKinds(t *testing.T) {
 			res.violate("%s: Build panicked: %v", c.name, err)
 		} else if (err == nil) != c.ok {
 			res.violate("%s: Build returned %v", c.name, err)
+		}
+	}
+	res.emit(t)
+}
+
+// ---- C06 / C11: position fields behind an embedded pointer are not the node's (F33) ----
+
+type r8Meta struct {
+	Pos    lexer.Position
+	EndPos lexer.Position
+	Tokens []lexer.Token
+}
+type r8PtrEmbed struct {
+	*r8Meta
+	Name string `@Ident`
+}
+type r8ValEmbed struct {
+	r8Meta
+	Name string `@Ident`
+}
+
+func TestVerif_C06C11_EmbeddedPositionFields(t *testing.T) {
+	res := &xResult{Check: "embedded position fields", Property: "C06 C11", Exhaustive: true,
+		Bound: "Pos / EndPos / Tokens promoted through an embedded struct value and through an embedded pointer, 2 inputs",
+		Rule: "(grammar, input) pairs; all non-trivial"}
+	for _, in := range []string{"hello", "  hello "} {
+		res.Evaluations += 2
+		res.Distinct += 2
+		func() {
+			defer func() {
+				if r := recover(); r != nil {
+					res.violate("embedded pointer, input %q: panic: %v", in, r)
+				}
+			}()
+			p, err := participle.Build[r8PtrEmbed]()
+			if err != nil {
+				return // rejecting the grammar is fine too
+			}
+			v, err := p.ParseString("f", in)
+			if err != nil || v.Name != "hello" {
+				res.violate("embedded pointer, input %q: %v %v", in, v, err)
+			}
+		}()
+		func() {
+			defer func() {
+				if r := recover(); r != nil {
+					res.violate("embedded value, input %q: panic: %v", in, r)
+				}
+			}()
+			p, err := participle.Build[r8ValEmbed]()
+			if err != nil {
+				res.violate("embedded value: Build: %v", err)
+				return
+			}
+			v, err := p.ParseString("f", in)
+			if err != nil || v.Name != "hello" || v.Pos.Offset != strings.Index(in, "h") || len(v.Tokens) != 1 || v.EndPos.Offset < strings.Index(in, "h")+5 {
+				res.violate("embedded value, input %q: %+v %v", in, v, err)
+			}
+		}()
+	}
+	res.emit(t)
+}
+
+// ---- C15: Parser.Lex names the tokens as Parser.Parse does (F34) ----
+
+type r8Named struct {
+	io.Reader
+	name string
+}
+
+func (n r8Named) Name() string { return n.name }
+
+type r8Bad struct {
+	A string `@Ident`
+	B string `@Ident`
+}
+
+func TestVerif_C15_LexFilename(t *testing.T) {
+	res := &xResult{Check: "Lex filename", Property: "C15", Exhaustive: true,
+		Bound: "a reader with a Name() method, filename given and not given, Lex against the position Parse reports for the same reader",
+		Rule: "(filename given?) cases; all non-trivial"}
+	p, err := participle.Build[r8Bad]()
+	if err != nil {
+		res.violate("Build: %v", err)
+		res.emit(t)
+		return
+	}
+	for _, fn := range []string{"", "given.txt"} {
+		res.Evaluations++
+		res.Distinct++
+		toks, lerr := p.Lex(fn, r8Named{strings.NewReader("a 1"), "reader.txt"})
+		_, perr := p.Parse(fn, r8Named{strings.NewReader("a 1"), "reader.txt"})
+		pe, ok := perr.(participle.Error)
+		if lerr != nil || !ok || len(toks) < 2 {
+			res.violate("filename %q: Lex %v, Parse %v", fn, lerr, perr)
+			continue
+		}
+		if toks[1].Pos != pe.Position() {
+			res.violate("filename %q: Lex places the token %q at %v, the parse of the same reader reports it at %v", fn, toks[1].Value, toks[1].Pos, pe.Position())
 		}
 	}
 	res.emit(t)
